@@ -698,6 +698,13 @@ def run(ctx):
     for _ in range(nseq):
         cases.append((gen_sequence(g, 60), "ee", {"src": "random"}))
 
+    if ctx.replay:
+        import json
+        ln = json.load(open(ctx.replay))["replay"]["input_line"]
+        kind = "hb" if ln.startswith("hb") else "ee"
+        # the weight probes stay: they provide the implementation's weight vectors the oracle uses
+        cases = [c for c in cases if c[1] == "probe"] + [(ln, kind, {"src": "replay"})]
+        ngrid = 0
     lines = [c[0] for c in cases]
     hout, logs = vlib.run_harness(binary, lines)
     dout = vlib.run_driver(lines)
